@@ -31,14 +31,14 @@ fn fsc_body<const N: usize>() {
     crate::vcover!(matches!(got, Some((p, _)) if p > from), "code found past from");
 }
 
-//@ prop=C14 tier=quick fns="codec::common::find_start_code" bound="all byte strings of length 0..=6, any from: usize" unwind=9
+//@ prop=C14 tier=quick cost=8 fns="codec::common::find_start_code" bound="all byte strings of length 0..=6, any from: usize" unwind=9
 #[kani::proof]
 #[kani::unwind(9)]
 pub fn c14_fsc_len0to6() {
     fsc_body::<6>();
 }
 
-//@ prop=C14 tier=thorough fns="codec::common::find_start_code" bound="all byte strings of length 0..=10, any from: usize" unwind=13
+//@ prop=C14 tier=thorough cost=17 fns="codec::common::find_start_code" bound="all byte strings of length 0..=10, any from: usize" unwind=13
 #[kani::proof]
 #[kani::unwind(13)]
 pub fn c14_fsc_len0to10() {
@@ -88,15 +88,15 @@ macro_rules! iter_h {
 }
 //@ prop=C14 tier=quick cost=60 fns="AnnexBNalIter::next,find_start_code" bound="all byte strings of length 4" unwind=7 covers_optional="two or more"
 iter_h!(c14_iter_len4, 4, 2, 7);
-//@ prop=C14 tier=quick fns="AnnexBNalIter::next,find_start_code" bound="all byte strings of length 6" unwind=9
+//@ prop=C14 tier=quick cost=44 fns="AnnexBNalIter::next,find_start_code" bound="all byte strings of length 6" unwind=9
 iter_h!(c14_iter_len6, 6, 3, 9);
-//@ prop=C14 tier=thorough fns="AnnexBNalIter::next,find_start_code" bound="all byte strings of length 7" unwind=10
+//@ prop=C14 tier=thorough cost=57 fns="AnnexBNalIter::next,find_start_code" bound="all byte strings of length 7" unwind=10
 iter_h!(c14_iter_len7, 7, 3, 10);
-//@ prop=C14 tier=thorough fns="AnnexBNalIter::next,find_start_code" bound="all byte strings of length 8" unwind=11
+//@ prop=C14 tier=thorough cost=74 fns="AnnexBNalIter::next,find_start_code" bound="all byte strings of length 8" unwind=11
 iter_h!(c14_iter_len8, 8, 3, 11);
-//@ prop=C14 tier=thorough fns="AnnexBNalIter::next,find_start_code" bound="all byte strings of length 5" unwind=8 covers_optional="two or more"
+//@ prop=C14 tier=thorough cost=33 fns="AnnexBNalIter::next,find_start_code" bound="all byte strings of length 5" unwind=8 covers_optional="two or more"
 iter_h!(c14_iter_len5, 5, 2, 8);
-//@ prop=C14 tier=thorough fns="AnnexBNalIter::next,find_start_code" bound="all byte strings of length 3" unwind=6 covers_optional="two or more"
+//@ prop=C14 tier=thorough cost=24 fns="AnnexBNalIter::next,find_start_code" bound="all byte strings of length 3" unwind=6 covers_optional="two or more"
 iter_h!(c14_iter_len3, 3, 2, 6);
 
 // ---------------------------------------------------------------------------
@@ -174,27 +174,27 @@ macro_rules! conv_h {
         }
     };
 }
-//@ prop=C14 tier=quick cost=20 fns="codec::h264::annexb_to_avcc,AnnexBNalIter::next,find_start_code" bound="all byte strings of length 3" unwind=7 stubs="Vec::extend_from_slice(recording)" covers_optional="two non-empty|one non-empty|skipped next"
+//@ prop=C14 tier=quick cost=36 fns="codec::h264::annexb_to_avcc,AnnexBNalIter::next,find_start_code" bound="all byte strings of length 3" unwind=7 stubs="Vec::extend_from_slice(recording)" covers_optional="two non-empty|one non-empty|skipped next"
 conv_h!(c14_avcc_len3, annexb_to_avcc, 3, 7);
-//@ prop=C14 tier=quick cost=30 fns="codec::h264::annexb_to_avcc,AnnexBNalIter::next,find_start_code" bound="all byte strings of length 4" unwind=7 stubs="Vec::extend_from_slice(recording)" covers_optional="two non-empty|skipped next"
+//@ prop=C14 tier=quick cost=61 fns="codec::h264::annexb_to_avcc,AnnexBNalIter::next,find_start_code" bound="all byte strings of length 4" unwind=7 stubs="Vec::extend_from_slice(recording)" covers_optional="two non-empty|skipped next"
 conv_h!(c14_avcc_len4, annexb_to_avcc, 4, 7);
 //@ prop=C14 tier=quick cost=80 fns="codec::h264::annexb_to_avcc,AnnexBNalIter::next,find_start_code" bound="all byte strings of length 6" unwind=8 stubs="Vec::extend_from_slice(recording)" covers_optional="two non-empty|skipped next"
 conv_h!(c14_avcc_len6, annexb_to_avcc, 6, 8);
 //@ prop=C14 tier=quick cost=80 fns="codec::h265::hevc_annexb_to_hvcc,AnnexBNalIter::next,find_start_code" bound="all byte strings of length 6" unwind=8 stubs="Vec::extend_from_slice(recording)" covers_optional="two non-empty|skipped next"
 conv_h!(c14_hvcc_len6, hevc_annexb_to_hvcc, 6, 8);
-//@ prop=C14 tier=thorough cost=10 fns="codec::h264::annexb_to_avcc" bound="all byte strings of length 1" unwind=7 stubs="Vec::extend_from_slice(recording)" covers_optional="*"
+//@ prop=C14 tier=thorough cost=5 fns="codec::h264::annexb_to_avcc" bound="all byte strings of length 1" unwind=7 stubs="Vec::extend_from_slice(recording)" covers_optional="*"
 conv_h!(c14_avcc_len1, annexb_to_avcc, 1, 7);
-//@ prop=C14 tier=thorough cost=10 fns="codec::h264::annexb_to_avcc" bound="all byte strings of length 2" unwind=7 stubs="Vec::extend_from_slice(recording)" covers_optional="*"
+//@ prop=C14 tier=thorough cost=5 fns="codec::h264::annexb_to_avcc" bound="all byte strings of length 2" unwind=7 stubs="Vec::extend_from_slice(recording)" covers_optional="*"
 conv_h!(c14_avcc_len2, annexb_to_avcc, 2, 7);
 //@ prop=C14 tier=thorough cost=50 fns="codec::h264::annexb_to_avcc,AnnexBNalIter::next,find_start_code" bound="all byte strings of length 5" unwind=7 stubs="Vec::extend_from_slice(recording)" covers_optional="two non-empty|skipped next"
 conv_h!(c14_avcc_len5, annexb_to_avcc, 5, 7);
-//@ prop=C14 tier=thorough cost=200 fns="codec::h264::annexb_to_avcc,AnnexBNalIter::next,find_start_code" bound="all byte strings of length 7" unwind=9 stubs="Vec::extend_from_slice(recording)" covers_optional="two non-empty"
+//@ prop=C14 tier=thorough cost=111 fns="codec::h264::annexb_to_avcc,AnnexBNalIter::next,find_start_code" bound="all byte strings of length 7" unwind=9 stubs="Vec::extend_from_slice(recording)" covers_optional="two non-empty"
 conv_h!(c14_avcc_len7, annexb_to_avcc, 7, 9);
-//@ prop=C14 tier=thorough cost=600 fns="codec::h264::annexb_to_avcc,AnnexBNalIter::next,find_start_code" bound="all byte strings of length 8" unwind=10 stubs="Vec::extend_from_slice(recording)"
+//@ prop=C14 tier=thorough cost=177 fns="codec::h264::annexb_to_avcc,AnnexBNalIter::next,find_start_code" bound="all byte strings of length 8" unwind=10 stubs="Vec::extend_from_slice(recording)"
 conv_h!(c14_avcc_len8, annexb_to_avcc, 8, 10);
-//@ prop=C14 tier=thorough cost=30 fns="codec::h265::hevc_annexb_to_hvcc,AnnexBNalIter::next,find_start_code" bound="all byte strings of length 4" unwind=7 stubs="Vec::extend_from_slice(recording)" covers_optional="two non-empty|skipped next"
+//@ prop=C14 tier=thorough cost=64 fns="codec::h265::hevc_annexb_to_hvcc,AnnexBNalIter::next,find_start_code" bound="all byte strings of length 4" unwind=7 stubs="Vec::extend_from_slice(recording)" covers_optional="two non-empty|skipped next"
 conv_h!(c14_hvcc_len4, hevc_annexb_to_hvcc, 4, 7);
-//@ prop=C14 tier=thorough cost=600 fns="codec::h265::hevc_annexb_to_hvcc,AnnexBNalIter::next,find_start_code" bound="all byte strings of length 8" unwind=10 stubs="Vec::extend_from_slice(recording)"
+//@ prop=C14 tier=thorough cost=176 fns="codec::h265::hevc_annexb_to_hvcc,AnnexBNalIter::next,find_start_code" bound="all byte strings of length 8" unwind=10 stubs="Vec::extend_from_slice(recording)"
 conv_h!(c14_hvcc_len8, hevc_annexb_to_hvcc, 8, 10);
 //@ prop=C14 tier=thorough cost=5 fns="codec::h264::annexb_to_avcc,codec::h265::hevc_annexb_to_hvcc" bound="the empty byte string" unwind=7
 #[kani::proof]
@@ -262,11 +262,11 @@ adts_h!(c14_adts_len9, 9);
 adts_h!(c14_adts_len11, 11);
 //@ prop=C14 tier=quick fns="muxer::mp4::adts_to_raw" bound="all buffers of length 7" stubs="fmt::format,String::push_str,String::push" cost=60 covers_optional="accepted, CRC-protected|accepted with payload"
 adts_h!(c14_adts_len7, 7);
-//@ prop=C14 tier=thorough fns="muxer::mp4::adts_to_raw" bound="all buffers of length 6" stubs="fmt::format,String::push_str,String::push" cost=60 covers_optional="*"
+//@ prop=C14 tier=thorough fns="muxer::mp4::adts_to_raw" bound="all buffers of length 6" stubs="fmt::format,String::push_str,String::push" cost=10 covers_optional="*"
 adts_h!(c14_adts_len6, 6);
-//@ prop=C14 tier=thorough fns="muxer::mp4::adts_to_raw" bound="all buffers of length 8" stubs="fmt::format,String::push_str,String::push" cost=60 covers_optional="accepted, CRC-protected"
+//@ prop=C14 tier=thorough fns="muxer::mp4::adts_to_raw" bound="all buffers of length 8" stubs="fmt::format,String::push_str,String::push" cost=90 covers_optional="accepted, CRC-protected"
 adts_h!(c14_adts_len8, 8);
-//@ prop=C14 tier=thorough fns="muxer::mp4::adts_to_raw" bound="all buffers of length 10" stubs="fmt::format,String::push_str,String::push" cost=60
+//@ prop=C14 tier=thorough fns="muxer::mp4::adts_to_raw" bound="all buffers of length 10" stubs="fmt::format,String::push_str,String::push" cost=93
 adts_h!(c14_adts_len10, 10);
-//@ prop=C14 tier=thorough fns="muxer::mp4::adts_to_raw" bound="all buffers of length 12" stubs="fmt::format,String::push_str,String::push" cost=60
+//@ prop=C14 tier=thorough fns="muxer::mp4::adts_to_raw" bound="all buffers of length 12" stubs="fmt::format,String::push_str,String::push" cost=90
 adts_h!(c14_adts_len12, 12);
